@@ -87,6 +87,15 @@ func Main() {
 		code := engine.RunSuper(engine.SuperOpts{Prop: p, Tier: tier, Seed: seed, Jobs: envInt("VERIF_JOBS", 16),
 			VerifDir: verifDir, Exe: exe, Replay: replay, RepoDir: repo}, os.Stdout)
 		os.Exit(code)
+	case "helper":
+		if len(os.Args) < 3 {
+			os.Exit(2)
+		}
+		code, ok := engine.RunHelper(os.Args[2], os.Args[3:])
+		if !ok {
+			fmt.Fprintln(os.Stderr, "unknown helper", os.Args[2])
+		}
+		os.Exit(code)
 	case "child":
 		if len(os.Args) < 4 {
 			os.Exit(2)
